@@ -16,6 +16,10 @@ Every item TRANSLATES a piece of the current source into a Lean term (never comp
   RichData.slices                  -> slicesXVec / slicesYVec (x[0], y[..., 0] and which is passed as x= / y=)
   Slices.__init__                  -> slicesCentreY / slicesCentreX  (np.argmin(abs(v)) -> `am v len`)
   Slices.x / Slices.y              -> sliceXTwo / sliceXOne / sliceYTwo / sliceYOne (+ ...Coord)
+  psf.autocrop                     -> autocropLo0/Hi0/Lo1/Hi1 (window per axis as a function of the integer centroid and px)
+  psf.estimate_size                -> estSizeElem, estSizeX / estSizeY (dx-only coordinates and their x / y binding)
+  RichData.support_x / support_y   -> supportX / supportY (which axis length is scaled by dx)
+  fttools.fourier_resample         -> resamplePre / resamplePost (shift pair), resampleOut0/1 (axis length x zoom factor)
   Wavefront.pad2d / Wavefront.crop -> three-valued facts: every parameter of the delegated call is bound to the
                                       like-named argument (keyword or positional spelling is irrelevant)
 
@@ -909,6 +913,148 @@ def generate(repo):
            delegates('pad2d', 'pad2d', {'array': 'self.data', 'Q': 'Q', 'value': 'value', 'mode': 'mode', 'out_shape': 'out_shape'}))
     g.fact('wavefrontCropDelegates', 'prysm/propagation.py:Wavefront.crop',
            delegates('crop', 'crop_center', {'img': 'self.data', 'out_shape': 'out_shape'}))
+
+    # ---- psf.autocrop: the window cut around the (integer part of the) centroid, per axis
+    def autocrop():
+        fn = inl(psf, 'autocrop')
+        pos, _ = params_of(fn)
+        data, px = pos[0], pos[1]
+        # the local holding centroid(data, unit='pixels') and the pair unpacked from it, in axis order
+        cen = get_def(psf, 'centroid')
+        coms = []
+        for st in ast.walk(fn):
+            if isinstance(st, ast.Assign) and isinstance(st.value, ast.Call) and last_attr(st.value.func) == 'centroid':
+                b = bind_call(st.value, cen)
+                if ast.unparse(b.get('data')) != data or not isinstance(b.get('unit'), ast.Constant) or b['unit'].value == 'spatial':
+                    raise Untranslatable('autocrop does not ask centroid(data) for pixel units')
+                coms += [t.id for t in st.targets if isinstance(t, ast.Name)]
+        if len(coms) != 1:
+            raise Untranslatable('no single local holding centroid(data, unit=pixels)')
+        env = {px: 'px'}
+        for st in fn.body:
+            if isinstance(st, ast.Assign) and isinstance(st.targets[0], ast.Tuple) and len(st.targets[0].elts) == 2:
+                try:
+                    elt, binds = comp_parts(st.value)
+                except Untranslatable:
+                    continue
+                if list(binds.values()) == [coms[0]] and isinstance(elt, ast.Call) and last_attr(elt.func) in ('int', 'floor') \
+                        and ast.unparse(elt.args[0]) == list(binds)[0]:
+                    for k, t in enumerate(st.targets[0].elts):
+                        env[t.id] = f'c{k}'
+        if sorted(v for v in env.values() if v != 'px') != ['c0', 'c1']:
+            raise Untranslatable('no `cy, cx = (int(c) for c in com)`')
+        env = straight_env(fn, env)
+        (ret,) = find_returns(fn)
+        if not (isinstance(ret, ast.Subscript) and ast.unparse(ret.value) == data and isinstance(ret.slice, ast.Tuple)
+                and len(ret.slice.elts) == 2 and all(isinstance(s_, ast.Slice) and s_.lower is not None and s_.upper is not None
+                                                     and s_.step is None for s_ in ret.slice.elts)):
+            raise Untranslatable('autocrop does not return data[lo0:hi0, lo1:hi1]')
+        tr = Tr(env)
+        out = []
+        for k, s_ in enumerate(ret.slice.elts):
+            out.append(f'def autocropLo{k} (c0 c1 px : Int) : Int := {tr.expr(s_.lower)}')
+            out.append(f'def autocropHi{k} (c0 c1 px : Int) : Int := {tr.expr(s_.upper)}')
+        return '\n'.join(out)
+    g.item('autocrop.window', 'prysm/psf.py:autocrop', lambda: get_def(psf, 'autocrop'), autocrop,
+           '\n'.join(f'def autocropLo{k} (c0 c1 px : Int) : Int := {M}.autocropLo c{k} px\n'
+                     f'def autocropHi{k} (c0 c1 px : Int) : Int := {M}.autocropHi c{k} px' for k in (0, 1)))
+
+    # ---- psf.estimate_size: the coordinates built when only dx is given (`y, x = (fftrange(s)*dx for s in data.shape)`)
+    #      and which of them is handed to uniform_cart_to_polar as x / y
+    def est_size():
+        fn = inl(psf, 'estimate_size')
+        ucp = get_def(co, 'uniform_cart_to_polar')
+        state, elem_term = {}, None
+        for st in ast.walk(fn):
+            if isinstance(st, ast.Assign) and isinstance(st.targets[0], ast.Tuple) and len(st.targets[0].elts) == 2 \
+                    and all(isinstance(t, ast.Name) for t in st.targets[0].elts):
+                try:
+                    elt, binds = comp_parts(st.value)
+                except Untranslatable:
+                    continue
+                if list(binds.values()) != ['data.shape']:
+                    continue
+                s = list(binds)[0]
+                tr = Tr({s: 's', 'dx': 'dx'}, mode='rat',
+                        funcs={'fftrange': lambda args: f'(((fftrangeLo {args[0]} + i : Int)) : Rat)'})
+                elem_term = tr.expr(elt)
+                for k, t in enumerate(st.targets[0].elts):
+                    state[t.id] = k
+        if elem_term is None:
+            raise Untranslatable('no `y, x = (... for s in data.shape)`')
+        calls = find_calls(fn, 'uniform_cart_to_polar')
+        if len(calls) != 1:
+            raise Untranslatable('no single call of uniform_cart_to_polar')
+        b = bind_call(calls[0], ucp)
+        if ast.unparse(b.get('data')) != 'data' or ast.unparse(b.get('x')) not in state or ast.unparse(b.get('y')) not in state:
+            raise Untranslatable('uniform_cart_to_polar arguments')
+        length = {0: 'm', 1: 'n'}
+        return (f'def estSizeElem (s i : Int) (dx : Rat) : Rat := {elem_term}\n'
+                f'def estSizeX (m n : Int) (dx : Rat) (k : Int) : Rat := estSizeElem {length[state[ast.unparse(b["x"])]]} k dx\n'
+                f'def estSizeY (m n : Int) (dx : Rat) (k : Int) : Rat := estSizeElem {length[state[ast.unparse(b["y"])]]} k dx')
+    g.item('estimate_size.grid', 'prysm/psf.py:estimate_size', lambda: get_def(psf, 'estimate_size'), est_size,
+           f'def estSizeElem (s i : Int) (dx : Rat) : Rat := {M}.gridElem s i dx\n'
+           f'def estSizeX (m n : Int) (dx : Rat) (k : Int) : Rat := {M}.vecX m n dx k\n'
+           f'def estSizeY (m n : Int) (dx : Rat) (k : Int) : Rat := {M}.vecY m n dx k')
+
+    # ---- RichData.support_x / support_y: which axis length is scaled by dx
+    def rich_support():
+        out = []
+        for prop, lean in (('support_x', 'supportX'), ('support_y', 'supportY')):
+            (fn,) = [n for n in get_def(rd, 'RichData').body if isinstance(n, ast.FunctionDef) and n.name == prop]
+            ret = the_return(fn.body)
+            if isinstance(ret, ast.Call) and last_attr(ret.func) == 'float' and len(ret.args) == 1:
+                ret = ret.args[0]
+            env = {'self.dx': 'dx'}
+            for base in ('self.shape', 'self.data.shape'):
+                env[f'{base}[0]'] = '((m : Int) : Rat)'
+                env[f'{base}[1]'] = '((n : Int) : Rat)'
+            out.append(f'def {lean} (m n : Int) (dx : Rat) : Rat := {Tr(env, mode="rat").expr(ret)}')
+        return '\n'.join(out)
+    g.item('RichData.support', 'prysm/_richdata.py:RichData.support_x', lambda: get_def(rd, 'RichData.support_x'), rich_support,
+           f'def supportX (m n : Int) (dx : Rat) : Rat := {M}.supportX m n dx\n'
+           f'def supportY (m n : Int) (dx : Rat) : Rat := {M}.supportY m n dx')
+
+    # ---- fttools.fourier_resample: the shift pair around the forward FFT and which axis length is zoomed by which factor
+    def resample():
+        fn = inl(ft, 'fourier_resample')
+        by = {'fftshift': 'npFftshiftBy', 'ifftshift': 'npIfftshiftBy'}
+        # only the statements up to the first top-level return are live
+        live = []
+        for st in fn.body:
+            live.append(st)
+            if isinstance(st, ast.Return):
+                break
+        chains = []
+        for st in live:
+            for c in ast.walk(st):
+                if isinstance(c, ast.Call) and last_attr(c.func) in by and len(c.args) == 1 and isinstance(c.args[0], ast.Call) \
+                        and last_attr(c.args[0].func) in ('fft2', 'fftn') and c.args[0].args \
+                        and isinstance(c.args[0].args[0], ast.Call) and last_attr(c.args[0].args[0].func) in by:
+                    chains.append((last_attr(c.args[0].args[0].func), last_attr(c.func)))
+        if len(chains) != 1:
+            raise Untranslatable('fourier_resample: shift(fft2(shift(f))) chain not found')
+        shp = None
+        for st in live:
+            if isinstance(st, ast.Assign) and isinstance(st.targets[0], ast.Tuple) and ast.unparse(st.value) == 'f.shape':
+                shp = [t.id for t in st.targets[0].elts]
+        if shp is None or len(shp) != 2:
+            raise Untranslatable('no `m, n = f.shape`')
+        calls = [c for st in live for c in ast.walk(st) if isinstance(c, ast.Call) and last_attr(c.func) == 'idft2']
+        if len(calls) != 1 or len(calls[0].args) < 3 or not isinstance(calls[0].args[2], ast.Tuple) or len(calls[0].args[2].elts) != 2:
+            raise Untranslatable('no idft2(F, zoom, (M, N))')
+        wrapped = ast.FunctionDef(name='_', args=fn.args, body=live, decorator_list=[], lineno=0)
+        env = {shp[0]: '((m : Int) : Rat)', shp[1]: '((n : Int) : Rat)', 'zoom[0]': 'z0', 'zoom[1]': 'z1'}
+        tr = Tr(env, mode='rat')
+        terms = [tr.expr(expand_locals(e, wrapped, stop=shp + ['zoom'])) for e in calls[0].args[2].elts]
+        pre, post = chains[0]
+        return (f'def resamplePre (dim : Int) : Int := {by[pre]} dim\ndef resamplePost (dim : Int) : Int := {by[post]} dim\n'
+                f'def resampleOut0 (m n : Int) (z0 z1 : Rat) : Rat := {terms[0]}\n'
+                f'def resampleOut1 (m n : Int) (z0 z1 : Rat) : Rat := {terms[1]}')
+    g.item('fourier_resample', 'prysm/fttools.py:fourier_resample', lambda: get_def(ft, 'fourier_resample'), resample,
+           f'def resamplePre (dim : Int) : Int := {M}.npIfftshiftBy dim\ndef resamplePost (dim : Int) : Int := {M}.npFftshiftBy dim\n'
+           f'def resampleOut0 (m n : Int) (z0 z1 : Rat) : Rat := {M}.resampleOut m z0\n'
+           f'def resampleOut1 (m n : Int) (z0 z1 : Rat) : Rat := {M}.resampleOut n z1')
 
     return g.finish()
 
